@@ -23,13 +23,13 @@ ASSUMPTIONS = [
     "the XML view handed to the engine is libyang's own dump of the parsed tree (module, name, canonical value per node in document order); "
     "parsing, implicit nodes and ordering are not under test here",
     "name() returns `module:name` (LY_VALUE_JSON prefixes); an unprefixed name test matches every module (names defined by two modules under one "
-    "parent are always prefixed on the child axis, see F58); the attribute axis is outside the generated fragment (F62)",
+    "parent are always prefixed on the child axis, see F258); the attribute axis is outside the generated fragment (F262)",
     "a deviation recorded as a known finding is switched on in the engine (LyModel.XPath.Quirks) so that everything around it is still compared; "
     "each input on which the switched-on engine differs from the XPath 1.0 engine is reported as a failure of the property and attributed to the "
     "switches that explain it; when a finding's status becomes `fixed` its switch goes off and the XPath 1.0 behaviour is demanded again",
     "generator rules that keep the random streams off not-mirrored findings: `//` only on sets that are antichains and never in front of node()/text() "
-    "(F57, F60); numeric predicates and ceiling() arguments are finite by construction (F37); bit-is-set gets a path ending in a name test (F32); "
-    "the last top-level node of a generated tree has a child (F59).  Each of these findings has explicit witnesses run on every invocation",
+    "(F257, F260); numeric predicates and ceiling() arguments are finite by construction (F37); bit-is-set gets a path ending in a name test (F32); "
+    "the last top-level node of a generated tree has a child (F259).  Each of these findings has explicit witnesses run on every invocation",
     "corrections made to the machinery while building it (no claim was loosened): bare `/` is parenthesised when it is an operand (REC §3.7 lexing); "
     "`.` is evaluated as the step self::node(); value-aware predicates use integer literals only for digit strings; batches of 12 trees",
 ]
@@ -40,7 +40,7 @@ HARNESS = "api_xpath"
 COMP = "xpath"
 ALL = 8191
 # Quirks bit -> finding
-QBITS = {0: "F38", 1: "F39", 2: "F40", 3: "F41", 4: "F50", 5: "F51", 6: "F52", 7: "F53", 8: "F54", 9: "F55", 10: "F56", 11: "F61", 12: "F64"}
+QBITS = {0: "F38", 1: "F39", 2: "F40", 3: "F41", 4: "F250", 5: "F251", 6: "F252", 7: "F253", 8: "F254", 9: "F255", 10: "F256", 11: "F261", 12: "F264"}
 
 
 def classify(component, what, case):
@@ -52,18 +52,18 @@ def classify(component, what, case):
         return case["witness"]
     if case.get("where") == "s" and case.get("validate") == ["ok", "valid"] and "xpa:s" in (case.get("expr") or "") and \
             any(b[:3] == ["ok", "bool", "0"] for b in case.get("evalb", [])):
-        return "F65"        # a when that reaches its own node by a child step is never evaluated
+        return "F265"        # a when that reaches its own node by a child step is never evaluated
     err = (case.get("stderr", "") or "") + " " + (what or "")
     if case.get("crash"):
         if "outside the range of representable values of type 'long long'" in err:
             return "F37"
         fnname = crash_function(what or "") or ""
         if "null pointer" in err and (fnname == "get_node_pos" or "in get_node_pos" in err):
-            return "F59"
+            return "F259"
         if "null pointer" in err and (fnname in ("xpath_bit_is_set", "xpath_deref", "xpath_enum_value") or "in xpath_bit_is_set" in err):
             return "F32"
         if "null pointer" in err and (fnname == "xpath_sum" or "in xpath_sum" in err):
-            return "F63"
+            return "F263"
     return None
 
 
@@ -319,7 +319,7 @@ def run(cx):
     set_ops(cx)
 
 
-NOT_MIRRORED = ("F57", "F58", "F60", "F62")
+NOT_MIRRORED = ("F257", "F258", "F260", "F262")
 
 
 def witnesses(cx):
@@ -342,9 +342,9 @@ def witnesses(cx):
             cx.count(("witness", fid, X.prefix(e)), True, "witness:" + fid)
             if a != r:
                 cx.fail(COMP, "result differs from XPath 1.0 (%s)" % fid, {"witness": fid, "expr": X.render(e), "ctx": c, "impl": a, "xpath10": r})
-    # F63: compiling a schema whose must expression applies sum() to the root node
+    # F263: compiling a schema whose must expression applies sum() to the root node
     ya = X.YANG_A.replace("container c {", 'container c { must "sum(/) = 0";', 1)
-    cx.count(("witness", "F63"), True, "witness:F63")
+    cx.count(("witness", "F263"), True, "witness:F263")
     cx.run_impl(HARNESS, ["s %s schema %s %s" % (COMP, hexs(ya), hexs(X.YANG_B))], component=COMP)
     for (fid, xml, c, e) in X.CRASH_WITNESSES:
         lines = [schema_line("s"), "t %s load x %s" % (COMP, hexs(xml)), "w %s eval %d %s -" % (COMP, c, hexs(X.render(e)))]
@@ -536,7 +536,7 @@ def mustwhen_law(cx, nvar):
         cur = sch if where == "c" else sch + [k for k in sch[0]["kids"] if k["name"] == ("l1" if where == "l1" else "s") and k["mod"] == X.A]
         e = g.expr("bool", rng.choice([1, 2, 2]), cur)
         if vi == -1:
-            # witness of F65: the when of leaf s reaches s itself through a child step
+            # witness of F265: the when of leaf s reaches s itself through a child step
             where, xml = "s", '<c xmlns="urn:xpa"><s>bx</s><b>false</b></c>'
             e = X.bop("eq", X.fn("count", X.relp(X.st(X.NODE, "parent"), X.st("s"))), X.num(7))
         if X.size(e) > 40: continue
